@@ -439,7 +439,7 @@ theorem facts_writes_fenced :
        ("servers", "save", "tx *redis.Tx", "HSet"), ("servers", "save", "tx *redis.Tx", "ZAdd"),
        ("servers", "save", "tx *redis.Tx", "ZRem"), ("servers", "save", "tx *redis.Tx", "ZAdd"),
        ("servers", "save", "tx *redis.Tx", "SAdd"), ("servers", "save", "tx *redis.Tx", "SRem")] ∧
-    Facts.storeReadCmds = ["Get", "HGet", "HLen", "HMGet", "SCard", "SInter", "SUnion", "ZCard", "ZRange", "ZRangeArgs"] := by
+    Facts.storeReadCmds = ["Get", "HGet", "HLen", "HMGet", "SCard", "SInter", "SUnion", "ZCard", "ZRange", "ZRangeArgs", "ZRangeArgsWithScores"] := by
   decide
 
 /-- **(2): `EXEC` is sent on the WATCHing connection.**  The complete list of `Watch` / `Pipelined` / `TxPipelined` /
